@@ -447,6 +447,51 @@ def gen_pair(rng, cid):
     return Case(cid, A + ["phase B"], tags=("pair-slice", f"{mod}.{name}"))
 
 
+def gen_assoc(rng, cid):
+    """associated-resource flow rules in reload sets: X is limited by the traffic of Y (and Z too, sometimes); Y has its own
+    reject rule.  A reload drops / keeps / modifies the associated rule of X (X keeps another rule); the unchanged rules of Y
+    (and Z) are probed in a later statistic window"""
+    g = G(rng)
+    now = T0 + rng.randint(0, 10 ** 6)
+    X, Y, Z = 1, 2, 3
+    assoc = [g.rid(), X, 0, rng.choice([0, 0, 1]), rng.choice([1, 2, 3]), 1, Y, rng.choice([0, 500]), 0, 0, rng.choice([0, 0, 2000, 3000])] + [0] * 4
+    other = g.mk("flow", X)
+    other[5], other[6] = 0, 0
+    yrule = [g.rid(), Y, 0, 0, rng.choice([1, 2, 3]), 0, 0, 0, 0, 0, rng.choice([0, 0, 1000, 2000])] + [0] * 4
+    zrule = [g.rid(), Z, 0, 0, rng.choice([1, 2]), 1, Y, 0, 0, 0, 0] + [0] * 4
+    rules = [assoc, other, yrule] + ([zrule] if rng.random() < 0.5 else [])
+    if rng.random() < 0.3:
+        rng.shuffle(rules)
+    A = [f"t {now}", f"flow.load {enc(rules)}"]
+    def traffic(k):
+        nonlocal now
+        for _ in range(k):
+            if rng.random() < 0.25:
+                now += rng.choice([1, 100, 400, 600, 1000, 2500])
+                A.append(f"t {now}")
+            A.append(f"e {rng.choice([X, Y, Y, Y, Z])} 0")
+    traffic(rng.randint(3, 8))
+    for _ in range(rng.choice([1, 1, 2])):
+        k = rng.random()
+        new = [list(r) for r in rules]
+        if k < 0.5:
+            new = [r for r in new if r[0] != assoc[0]]                 # the associated rule of X is dropped, X keeps `other`
+        elif k < 0.7:
+            for r in new:
+                if r[0] == assoc[0]:
+                    r[4] += 1                                          # modified (threshold)
+        elif k < 0.85:
+            new = [r for r in new if r[0] != other[0]]                 # the plain rule of X is dropped, the associated one kept
+        else:
+            new.append(g.mk("flow", X, inert=True))
+        A.append(f"flow.reload {enc(new)}" if rng.random() < 0.5 else f"flow.reloadres {X} {enc([r for r in new if r[1] == X])}")
+        rules = new
+        now += rng.choice([0, 500, 1000, 1500, 3000])                  # mostly a later window
+        A.append(f"t {now}")
+        traffic(rng.randint(3, 8))
+    return Case(cid, A + ["phase B"], tags=("assoc-slice",))
+
+
 def gen_wide(rng, cid):
     """a resource with 9-13 rules of one module (hotspot QPS reject / circuit breaker), the strict ones late in the list;
     state is built up, then a reload (mostly per-resource) leaves them unchanged and only adds / modifies a never-refusing
@@ -571,6 +616,8 @@ def gen(ctx, n):
             out.append(gen_order(ctx.rng, f"o{ctx.seed}-{i}"))
         elif i % 10 == 9:
             out.append(gen_pair(ctx.rng, f"p{ctx.seed}-{i}"))
+        elif i % 50 == 22:
+            out.append(gen_assoc(ctx.rng, f"r{ctx.seed}-{i}"))
         elif i % 50 == 44:
             out.append(gen_adaptive(ctx.rng, f"a{ctx.seed}-{i}"))
         elif i % 50 == 36:
